@@ -167,6 +167,9 @@ class FromVectorMonitor(taps.Monitor):
         if same:
             ctx.tap("round_trip_state", "calls"); ctx.tap("round_trip_state", "checked")
             if isinstance(o, mt.Homogeneous):
+                if np.asarray(r.h_matrix).shape != np.asarray(o.h_matrix).shape:
+                    ctx.fail("round_trip_changed_the_matrix", cls=cls, mech="shape_%s_to_%s" % (np.asarray(o.h_matrix).shape, np.asarray(r.h_matrix).shape))
+                    return
                 if _amax(np.asarray(r.h_matrix) - np.asarray(o.h_matrix)) > 1e-10 * max(1.0, np.abs(o.h_matrix).max()):
                     ctx.fail("round_trip_changed_the_matrix", cls=cls)
                 if is_alignment(o):
@@ -235,8 +238,16 @@ def make_object(rng, i):
         if rng.random() < 0.3:
             o.path = "somewhere/file.png"
         return o, (cls, d, np.dtype(dt).name if cls != "BooleanImage" else "bool", mk if cls != "Image" else "-", nlm)
-    kind = tx.HOMOG[(i // 3) % len(tx.HOMOG)]
-    d = 2 + (i // 36) % 2
+    K = tx.HOMOG + ["NonSquareHomogeneous"]
+    kind = K[(i // 3) % len(K)]
+    d = 2 + (i // (3 * len(K))) % 2
+    if kind == "NonSquareHomogeneous":
+        # a projection between spaces of different dimension: (n_dims_output + 1) x (n_dims + 1)
+        import menpo.transform as mt
+        dout = d + int(rng.choice([-1, 1]))
+        h = rng.normal(size=(dout + 1, d + 1))
+        h[-1, -1] = 1.0
+        return mt.Homogeneous(h), (kind, d, "f8", "-", 0)
     o, _ = tx.make(rng, kind, d)
     return o, (kind, d, "f8", "-", 0)
 
